@@ -69,6 +69,6 @@ Proof. vm_compute. reflexivity. Qed.
 Example C20_collector_example_waiting :
   let c := run 3 (Some 9%Z) [[mkjob 1 1%Z]; []] [] in
   st c = Waiting /\ (charged (trace c) < 9)%Z /\ n_take (trace c) < n_result (trace c) + 3.
-Proof. vm_compute. repeat split; reflexivity. Qed.
+Proof. vm_compute. repeat split; repeat constructor. Qed.
 Example C20_collector_example_raised : st (run 2 None [[mkjob 1 1%Z; mkjob 2 1%Z]] [[(1, Err 4%Z); (0, Ok 5%Z)]]) = Raised 4%Z.
 Proof. vm_compute. reflexivity. Qed.
